@@ -106,6 +106,8 @@ func (c *FnCtx) ghostIntrinsic(fr *Frame, st *State, fn *ssa.Function, args []*T
 		return []*Term{c.getCell(st, c.curFrame.iterByLoop[int(k)].count)}, true
 	case "verifHeight":
 		return []*Term{c.height(st, args[0])}, true
+	case "verifSameVal": // equality of two values (maps by identity)
+		return []*Term{ts.Eq(args[0], args[1])}, true
 	case "verifSeqEq": // equality of two slices as sequences of values (maps compared by identity)
 		return []*Term{ts.Eq(args[0], args[1])}, true
 	case "verifRangeIndex": // index of the element the slice-range loop with the given ordinal handled last (-1 before the first)
